@@ -787,10 +787,17 @@ def inner_candidates():
             ("None", "none", None), ("[True]", "list", [True]), ("[]", "list", []), ("(1,)", "tuple", (1,))]
 
 
-def leaf_candidates():
+_OTHER = []
+
+
+def leaf_candidates(i):
+    """i-th candidate value for a slot of type Instance(Leaf) (built on demand: a Leaf that
+    is accepted becomes part of the copy and must not be shared between copies)."""
     from vf.lattice import Plain
-    return [("Leaf()", "leaf", Leaf(v=1)), ("5", "int", 5), ("'x'", "str", "x"), ("Plain()", "object", Plain()),
-            ("Obj()", "other-hastraits", Obj())]
+    if not _OTHER:
+        _OTHER.append(Obj())
+    return [lambda: ("Leaf()", "leaf", Leaf(v=1)), lambda: ("5", "int", 5), lambda: ("'x'", "str", "x"),
+            lambda: ("Plain()", "object", Plain()), lambda: ("Obj()", "other-hastraits", _OTHER[0])][i % 5]()
 
 
 def verdict(r):
@@ -1028,9 +1035,9 @@ class Battery:
                 self.probe_list(il, rf.ref_int, 3, cand, "dl[]")
         for cand in pick(2):
             self.probe_set(C.s, rf.ref_int, cand, "s")
-        lc = leaf_candidates()
-        self.probe_list(C.kids, REF_LEAF, 5, lc[rng.randrange(len(lc))], "kids")
-        self.probe_dict(C.reg, rf.ref_isinstance(str), REF_LEAF, None, okkey, lc[rng.randrange(len(lc))], "reg")
+        self.probe_list(C.kids, REF_LEAF, 5, leaf_candidates(rng.randrange(5)), "kids")
+        self.probe_dict(C.reg, rf.ref_isinstance(str), REF_LEAF, None, okkey, leaf_candidates(rng.randrange(5)),
+                        "reg")
         leaves = [C.child, C.child_sh] + list(C.kids)[:2] + list(C.reg.values())[:1]
         done = set()
         for lf in leaves:
@@ -1232,7 +1239,7 @@ def features(o):
             o.ro is not Undefined, any(is_cont(getattr(o, b)) for b in OBJ_BAGS))
 
 
-def check_copy(ctx, rng, mode, mclass, fn, O, feat):
+def check_copy(ctx, rng, mode, mclass, fn, O, feat, fresh):
     """Copy O with fn and judge the copy.  Returns (copy or None, violated)."""
     ctx.count("copies")
     before = snapshot(O)
@@ -1261,7 +1268,6 @@ def check_copy(ctx, rng, mode, mclass, fn, O, feat):
                       "%s: %s differs between original and copy: %s" % (mode, r[0], r[1]),
                       {"mode": mode, "path": r[0], "detail": r[1]})
         return C, True
-    fresh = {Obj: Obj(), Leaf: Leaf()}
     for a, b in list(memo.values()):
         if a is b:
             continue
@@ -1277,6 +1283,18 @@ def check_copy(ctx, rng, mode, mclass, fn, O, feat):
                 return C, True
             if not same(plainify(getattr(a, tn)), plainify(want)):
                 ctx.count("transient_nondefault_in_original")
+    if mclass != "pickle":
+        # copy='ref' metadata means the reference itself is copied
+        for nm in ("friend", "bag_ref"):
+            ov = getattr(O, nm)
+            if isinstance(ov, HasTraits) or is_cont(ov):
+                ctx.ev()
+                ctx.count("ref_identity_checked")
+                if getattr(C, nm) is not ov:
+                    ctx.violation("obj/%s/ref-not-shared/%s" % (mclass, nm),
+                                  "%s: trait %s has copy='ref' metadata but the copy holds a different object"
+                                  % (mode, nm), {"mode": mode, "trait": nm})
+                    return C, True
     bad = shared_containers(C, mclass, oconts, onodes)
     ctx.ev()
     ctx.count("sharing_checked")
@@ -1403,8 +1421,9 @@ def check_containers(ctx, rng, O):
 def check_state(ctx, rng, O, modes, ops):
     feat = features(O)
     copies = []
+    fresh = {Obj: Obj(), Leaf: Leaf()}      # read only: the defaults a transient trait must be back at
     for mode, mclass, fn in modes:
-        C, violated = check_copy(ctx, rng, mode, mclass, fn, O, feat)
+        C, violated = check_copy(ctx, rng, mode, mclass, fn, O, feat, fresh)
         if violated:
             ctx.count("copies_with_violation")
         elif C is not None:
@@ -1460,7 +1479,7 @@ def calibrate():
 
 def run_objects(ctx):
     calibrate()
-    nh = ctx.scale(1000, 30000)
+    nh = ctx.scale(1000, 20000)
     for h in range(nh):
         if not ctx.mine(h):
             continue
